@@ -165,6 +165,8 @@ Definition new_counter (meta : bytes) (hdr : N) (bs name : bytes) : nc_result * 
       let head := load32_sz sz bs ho in
       let limit := load32_sz sz bs (hdr + c_limitOff) in
       let '(start, e) := place hdr limit (len name) in
+      (* uint32 overflow of the placement: the recorded limit is corrupt *)
+      if (start <? limit) || (e <? start) || (round_u32 e c_pageSize <? e) then (NCCorrupt, bs) else
       let grown := if sz <? e then extend meta bs e else Some bs in
       match grown with
       | None => (NCCorrupt, bs)
